@@ -20,6 +20,7 @@ import (
 	"github.com/plgd-dev/go-coap/v3/net/responsewriter"
 	coapErrors "github.com/plgd-dev/go-coap/v3/pkg/errors"
 	coapSync "github.com/plgd-dev/go-coap/v3/pkg/sync"
+	"github.com/plgd-dev/go-coap/v3/pkg/verifhook"
 	"go.uber.org/atomic"
 )
 
@@ -186,11 +187,13 @@ func (cc *Conn) doInternal(req *pool.Message) (*pool.Message, error) {
 	defer func() {
 		_, _ = cc.tokenHandlerContainer.LoadAndDelete(token.Hash())
 	}()
+	verifhook.Yield("tcp.doInternal.afterRegister", token.Hash())
 	if err := cc.session.WriteMessage(req); err != nil {
 		return nil, fmt.Errorf("cannot write request: %w", err)
 	}
 
 	cc.receivedMessageReader.TryToReplaceLoop()
+	verifhook.Yield("tcp.doInternal.beforeWait", token.Hash())
 
 	select {
 	case <-req.Context().Done():
